@@ -339,8 +339,24 @@ def rule_foreign_write_inventory(check, rule, cg=None):
                                 fresh.add(t.id)
                         else:
                             fresh.add(t.id)
+        # local aliases of the object's own elements: `m = self.table[k]` / `m = self.table.lookup(k)`; then `m.x = ...`
+        # writes the object's own state (constants such as None among the assigned values are ignored)
+        own_alias = set()
+        if selfname is not None:
+            assigned = {}
+            for node in _own_nodes(fi.node):
+                if isinstance(node, ast.Assign) and len(node.targets) == 1 and isinstance(node.targets[0], ast.Name):
+                    assigned.setdefault(node.targets[0].id, []).append(node.value)
+            for nm, vals in assigned.items():
+                vals = [v for v in vals if not isinstance(v, ast.Constant)]
+                if vals and all(_own_container(v, selfname) or (isinstance(v, ast.Call) and receiver_root(v) == selfname
+                                                                   and isinstance(v.func, ast.Attribute) and isinstance(v.func.value, ast.Attribute))
+                                for v in vals):
+                    own_alias.add(nm)
         for node, recv, attr, kind in foreign_attr_writes(fi):
             root = receiver_root(recv)
+            if isinstance(recv, ast.Name) and recv.id in own_alias and kind in ('store', 'del'):
+                continue
             if root == selfname and selfname is not None:
                 # own state, unless it goes through an attribute holding a foreign object (self.func.x = ...)
                 depth = 0
